@@ -126,10 +126,16 @@ func (p *Project) SourceFiles() map[string]string {
 	}
 	for _, al := range p.Aliases {
 		a := get(al.Pkg, al.File)
+		under := al.Prim
+		if al.OfName != "" {
+			t := TypeRef{Kind: "alias", Pkg: al.OfPkg, Name: al.OfName}
+			useType(a, t)
+			under = t.GoString(al.Pkg)
+		}
 		if al.Assigned {
-			fmt.Fprintf(&a.body, "type %s = %s\n\n", al.Name, al.Prim)
+			fmt.Fprintf(&a.body, "type %s = %s\n\n", al.Name, under)
 		} else {
-			fmt.Fprintf(&a.body, "type %s %s\n\n", al.Name, al.Prim)
+			fmt.Fprintf(&a.body, "type %s %s\n\n", al.Name, under)
 		}
 	}
 	for _, s := range p.Structs {
